@@ -2449,7 +2449,7 @@ try_inline_default(arg_t *arg, asn1p_expr_t *expr, int out) {
 		//expr->marker.flags &= ~EM_INDIRECT;
 		return 0;
 	default:
-	  if(etype & ASN_STRING_KM_MASK) {
+	  if(etype & (ASN_STRING_KM_MASK | ASN_STRING_NKM_MASK)) {
 		if(expr->marker.default_value == NULL
 		|| expr->marker.default_value->type != ATV_STRING)
 			break;
